@@ -9,6 +9,8 @@
 // queue allocated is released).  Histories are concrete: this is a bounded check, not a proof.
 
 use super::*;
+// explicit imports: the contracts must not depend on which names the parent module happens to import
+use std::sync::mpsc::{RecvError, SendError, TryRecvError, TrySendError};
 use crate::verif_hooks::pay::{self, Pay};
 use crate::verif_hooks::*;
 
